@@ -842,3 +842,7 @@ mod tests {
         assert_eq!(limited.row_count(), 2);
     }
 }
+
+#[cfg(kani)]
+#[path = "/verif/kani/parquet/arrow/arrow_reader/selection/boolean.rs"]
+mod verif_kani;
